@@ -242,10 +242,18 @@ func (p *poller) setRW(fd int, slot *Slot, flag PollerEvent) error {
 		oldEvents := *events
 		*events |= flag
 
+		var err error
 		if oldEvents == 0 {
-			return p.add(fd, createEvent(*events, slot))
+			err = p.add(fd, createEvent(*events, slot))
+		} else {
+			err = p.modify(fd, createEvent(*events, slot))
 		}
-		return p.modify(fd, createEvent(*events, slot))
+		if err != nil {
+			// The kernel refused the registration (descriptor not pollable, closed, ...): nothing is in flight.
+			*events = oldEvents
+			p.pending--
+		}
+		return err
 	}
 	return nil
 }
